@@ -137,6 +137,10 @@ CHECKS["C31"] = dict(engine="tlc+vh", level="model_checking", ref="4.18", techni
                      text="Exhaustive over the bounded request space (12 348 requests at 3 segments): an accepted path must canonicalise component-wise inside the work directory, exactly where the spec's Resolve says it is inside.",
                      note="Trusted: the tree materialisation. Bounded: one tree (7 symlinks in/out, absolute/relative targets, sibling directory with a name-prefix relation), requests <= 3 (4) segments. Non-UTF-8 names are not generated.")
 
+CHECKS["C34"] = dict(engine="tlc+vh", level="model_checking", ref="4.19", technique="TLA+ spec (InjectRouting.tla): first-match reference enumerated by TLC over every route table of the bound; every (type, key) injected singly (resolve_inject_target) and as one batch (inject_batch -> loopback mock worker) on a real Coordinator",
+                     text="Exhaustive over route tables (686 at 2 routes): single and batch targets must equal the first-match reference; with key-hash one replica per (pipeline, key value) across single and batch injections; with round-robin replica loads within one.",
+                     note="Trusted: the mock worker's record of what reached each replica. Bounded: 5 patterns (exact/prefix/catch-all, overlapping), 4 event types, 5 key shapes, 2 pipelines with 3 and 2 replicas.")
+
 NOT_APPLICABLE = {
     "C41": "parser totality over arbitrary strings: no state/transition system to specify; a TLA+ model would only enumerate token strings (fuzzing under another name)",
     "C43": "LSP handler robustness over arbitrary text/cursor: per-call robustness, no protocol state in the property; outside model-based verification",
